@@ -8,7 +8,7 @@ from .. import sym as S
 from ..core import AnalysisError, Collector
 from ..dataflow import MUTATORS
 from .common import SCtx, sctx
-from .c07 import DATA, INDEX, tctx
+from .c07 import DATA, INDEX, tctx, _private_helper
 
 PROP = "C14"
 FLOORS = {"C14.R1": 5, "C14.R2": 8, "C14.R3": 4, "C14.R4": 5, "C14.R5": 10, "C14.R6": 4, "C14.R7": 1}
@@ -87,9 +87,12 @@ def _no_aliasing(col, rule="C14.R1"):
             kws = dict(a[3])
             if kws.get("verify") != ("const", "False"):
                 continue
-            n += 1
             q = f"{c.name}.{name}"
             cn = kws.get("col_names")
+            data0 = a[2][0] if a[2] else kws.get("data")
+            if _private_helper(name) and any(x is not None and x[:1] == ("param",) for x in (cn, data0)):
+                continue    # a private helper that forwards its arguments: judged where it is inlined into its callers
+            n += 1
             col.add(rule, f"{q}#fresh-column-list", cn is not None and fresh(cn), sx.loc(ev),
                     "the column list given to an unverified constructor is a fresh list (the derived table's column list is its own: "
                     "adding/removing/reordering columns there must not change the source)", S.show(cn)[:100] if cn is not None else "none")
